@@ -205,6 +205,100 @@ Section Commit.
   Definition hashedb (force : bool) (enc : list N) : bool :=
     force || Nat.leb 32 (length enc).
 
+  (* reader.Node(path, hash): the raw blob, not decoded *)
+  Definition read_blob (sc : scheme) (s : store) (h p : list N) : option (list N) :=
+    match sc with
+    | HashScheme => am_get h s
+    | PathScheme =>
+        match am_get p s with
+        | Some b => if bytes_eqb (H b) h then Some b else None
+        | None => None
+        end
+    end.
+
+  (* result of Trie.GetNode: nil item / the blob / an error *)
+  Inductive gres : Type := GNone | GItem (b : list N) | GErr.
+  Definition gres_ok (g : gres) : bool := match g with GErr => false | _ => true end.
+
+  (* trie.go:getNode — returns (item, newnode, resolved > 0, events).  [done] is
+     path[:pos], [rest] is path[pos:].  Hash nodes on the way are resolved with
+     resolveAndTrack (TRes events) and stay in the returned node; at the target
+     the blob is read with the cached hash of the node: hash nodes and clean
+     hashed nodes have one, dirty and embedded nodes do not ("non-consensus
+     node"; Trie.Hash is not called inside a session). *)
+  Fixpoint getnode (fuel : nat) (sc : scheme) (s : store) (dirty : list N -> bool)
+           (n : node) (done rest : list N) : gres * node * bool * list tev :=
+    match fuel with
+    | O => (GErr, n, false, [])
+    | S f =>
+        match n with
+        | NEmpty => (GNone, NEmpty, false, [])
+        | _ =>
+            match rest with
+            | [] =>
+                let oh :=
+                  match n with
+                  | NHash h => Some h
+                  | NShort _ _ | NFull _ =>
+                      if dirty done then None
+                      else match node_enc H n with
+                           | Some e => if hashedb (match done with [] => true | _ => false end) e
+                                       then Some (H e) else None
+                           | None => None
+                           end
+                  | _ => None
+                  end in
+                match oh with
+                | None => (GErr, n, false, [])
+                | Some h =>
+                    match read_blob sc s h done with
+                    | Some b => (GItem b, n, true, [])
+                    | None => (GErr, n, true, [])
+                    end
+                end
+            | r0 :: rr =>
+                match n with
+                | NValue _ => (GNone, NEmpty, false, [])
+                | NShort k c =>
+                    if negb (is_prefix_of k rest) then (GNone, n, false, [])
+                    else
+                      let '(g, c', res, ev) := getnode f sc s dirty c (done ++ k) (skipn (length k) rest) in
+                      (g, (if gres_ok g && res then NShort k c' else n), res, ev)
+                | NFull cs =>
+                    match child cs r0 with
+                    | None => (GErr, n, false, [])
+                    | Some c =>
+                        let '(g, c', res, ev) := getnode f sc s dirty c (done ++ [r0]) rr in
+                        if gres_ok g && res then
+                          match set_child cs r0 c' with
+                          | Some cs' => (g, NFull cs', res, ev)
+                          | None => (GErr, n, false, ev)
+                          end
+                        else (g, n, res, ev)
+                    end
+                | NHash h =>
+                    match resolve_of sc s h done with
+                    | None => (GErr, n, true, [])
+                    | Some (rn, blob) =>
+                        let '(g, n', _, ev) := getnode f sc s dirty rn done rest in
+                        (g, n', true, TRes done blob :: ev)
+                    end
+                | NEmpty => (GNone, NEmpty, false, [])
+                end
+            end
+        end
+    end.
+
+  (* Trie.GetNode(path): the root is replaced when something was resolved and no
+     error occurred; pre-values recorded on the way stay in any case *)
+  Definition sess_getnode_with (gn : gres * node * bool * list tev) (ss : sess) : gres * sess :=
+    let '(g, n, res, ev) := gn in
+    (g, mkSess (if gres_ok g && res then n else s_root ss) (trace_evs (s_tr ss) ev)
+               (s_dkeys ss) (s_dins ss)).
+
+  Definition sess_getnode (sc : scheme) (s : store) (ss : sess) (path : list N) : gres * sess :=
+    sess_getnode_with (getnode (2 * length path + 4) sc s (dirty_at ss) (s_root ss) [] path) ss.
+
   (* committer.store *)
   Definition store_node (tr : tracer) (force : bool) (path : list N) (n : node) (ns : nodeset)
     : option (node * nodeset) :=
